@@ -75,25 +75,29 @@ example : ∃ (s : St) (p : RPath) (ex : Entry), TreeInv s ∧ (p, ex) ∈ s.ent
 
 /-! ### counter_eq_names -/
 
-/-- operations of the client protocol (weed/filesys): write through a name, link with a fresh identity for a plain
-    source, unlink of a file -/
+/-- operations under which the counter invariant is proved: write through a name, link with a fresh identity for a
+    plain source, unlink / delete of a file (any flags), create or overwrite with a plain entry where no linked name is.
+    Excluded = exactly the known findings: rename (drops the link), a plain entry over a linked name, raw updates,
+    deletes of directories (metadata-only recursive delete forgets the links below). -/
 def Allowed (s : St) : Op → Prop
   | .write _ _ _ => True
   | .link src _ h => LinkFresh s src h
   | .unlink p => ∀ o, find s p = some o → o.isDir = false
+  | .delete p _ _ _ => ∀ o, find s p = some o → o.isDir = false
+  | .create p e _ => e.hl = 0 ∧ ∀ ex, (p, ex) ∈ s.ents → ex.hl = 0
   | _ => False
 
-/-- one step of the protocol keeps every identity's counter equal to its number of names, and its record present
-    exactly while names exist -/
+/-- one step keeps every identity's counter equal to its number of names, and its record present exactly while
+    names exist -/
 theorem counter_eq_names_step (s : St) (op : Op) (inv : TreeInv s) (c : ConsAll s) (ok : Allowed s op) :
     ConsAll (step s op).1 := by
   cases op with
   | write p tag chunks => exact consAll_write inv c p tag chunks
   | link src dst h => exact consAll_link inv c src dst h ok
   | unlink p => exact consAll_unlink inv c p ok
-  | create p e x => exact absurd ok (by simp [Allowed])
+  | create p e x => exact consAll_create_plain inv c p e x ok.1 ok.2
+  | delete p r i d => exact consAll_delete_file inv c p r i d ok
   | update p e => exact absurd ok (by simp [Allowed])
-  | delete p r i d => exact absurd ok (by simp [Allowed])
   | rename a b => exact absurd ok (by simp [Allowed])
 
 /-- every operation of the history is allowed in the state it is applied to -/
@@ -102,7 +106,10 @@ def AllowedRun : St → List Op → Prop
   | s, op :: t => Allowed s op ∧ AllowedRun (step s op).1 t
 
 theorem allowed_opOk (s : St) (op : Op) (h : Allowed s op) : OpOk op := by
-  cases op <;> simp [OpOk, Allowed] at h ⊢
+  cases op with
+  | create p e x => intro _; exact h.1
+  | update p e => exact absurd h (by simp [Allowed])
+  | _ => simp [OpOk]
 
 /-- MAIN (counter_eq_names): after ANY history of write / link / unlink the counter of every identity equals its
     number of names (by induction over the history) -/
